@@ -44,11 +44,13 @@ RULE = ("message sequences over 2 clients x 3 players (default + 2; plus unset/e
         "(b) exhaustive proto2-presence families enumerated from the protobuf descriptors (every optional field "
         "the handlers read: unset vs default-valued vs other values, in one- and two-message combinations on the "
         "reported player); (c) sampled longer sequences from ctx.rng with independent presence per field and "
-        "noise in fields the model ignores; plus the full grid of Playing(position, total_time). non-trivial = "
+        "noise in fields the model ignores; (d) the position cases and sampled histories under four process "
+        "timezones x five offsets between elapsedTimeTimestamp and the frozen instant; plus the full grid of "
+        "Playing(position, total_time). non-trivial = "
         "the sequence changes the reported view at least twice or removes a client/player that was being "
         "reported; distinct = the sequence itself")
 ASSUMPTIONS = [
-    "wall clock frozen (datetime.datetime.now inside pyatv.protocols.mrp) so that position is a function of the messages",
+    "wall clock frozen (datetime.datetime.now inside pyatv.protocols.mrp returns fromtimestamp(frozen instant) in the process timezone in force) so that position is a function of the messages and of that instant; POSIX TZ strings without DST rules",
     "float-valued metadata (playbackRate, duration, elapsedTime, elapsedTimeTimestamp) takes integer values; durations are >= 0 (negative durations are outside the property's domain, DESIGN §8)",
     "PlaybackQueue.location >= 0",
     "a listener is installed on the PlayerStateManager for the whole run",
@@ -329,12 +331,16 @@ class Real:
         M.cmd_defaults = tuple(cd[f].default_value for f in ("command", "shuffleMode", "repeatMode"))
         self._bytes = {}
 
-        frozen = _dt.datetime.fromtimestamp(NOW_UNIX)
+        real = self
+        self.now_unix = NOW_UNIX          # the frozen wall clock (an instant, independent of any timezone)
+        self.tz = None                    # process timezone forced by `clock()` (None = the host's)
 
         class FrozenDateTime(_dt.datetime):
             @classmethod
             def now(cls, tz=None):
-                return frozen
+                # what the real datetime.now() does with the frozen instant: local, naive time in
+                # whatever timezone the process is in at the moment of the call
+                return _dt.datetime.fromtimestamp(real.now_unix, tz)
 
         class Shim:
             datetime = FrozenDateTime
@@ -344,6 +350,40 @@ class Real:
 
         self._shim = Shim()
         self._orig_dt = None
+
+    @property
+    def now(self):
+        """the frozen instant on the Cocoa epoch (the unit of elapsedTimeTimestamp)"""
+        return self.now_unix - COCOA_DELTA
+
+    def clock(self, clock=None):
+        """Context manager: frozen instant `now_unix` and process timezone `tz` (POSIX TZ string set
+        through os.environ + time.tzset(), restored afterwards)."""
+        import contextlib
+        import os
+        import time as _time
+
+        @contextlib.contextmanager
+        def cm():
+            if not clock:
+                yield
+                return
+            old_now, old_tz, old_env = self.now_unix, self.tz, os.environ.get("TZ")
+            self.now_unix, self.tz = clock.get("now_unix", old_now), clock.get("tz")
+            try:
+                if self.tz is not None:
+                    os.environ["TZ"] = self.tz
+                    _time.tzset()
+                yield
+            finally:
+                self.now_unix, self.tz = old_now, old_tz
+                if old_env is None:
+                    os.environ.pop("TZ", None)
+                else:
+                    os.environ["TZ"] = old_env
+                _time.tzset()
+
+        return cm()
 
     def freeze(self):
         self._orig_dt = self.mrp.datetime
@@ -640,6 +680,7 @@ class Ref:
         self.rp = (pb.RepeatMode.One, pb.RepeatMode.All)
         self.active = None
         self.clients = {}
+        self.now = real.now
 
     def client(self, b, name):
         if b not in self.clients:
@@ -725,7 +766,7 @@ class Ref:
             if ts:
                 pos = el or 0
                 if st == DS.Playing and rate:
-                    pos += NOW - ts
+                    pos += self.now - ts
                 if pos:
                     pos = max(pos, 0)
                     if total:
@@ -924,6 +965,23 @@ def presence_families(real):
         if it.get("identifier") == "i1":
             f2.append((act, full, M("U", {"playerPath": _path(1, None, 1), "contentItems": [it]})))
     fam["presence-item-fields"] = f2
+    # F2b: queues with repeated item identifiers (every item with a matching identifier is updated),
+    # every location, updates carrying one or several items
+    dup = []
+    queues = [[a, dict(a, metadata=dict(a["metadata"], title="t2")), bb],
+              [bb, a, dict(a, metadata={"title": "t2"})],
+              [_item_spec(None, 1, 1, 100, 10, NOW - 10), _item_spec(0, 2, 1, 50, 5, NOW - 10), a]]
+    updates = [[_item_spec(1, 3, 2)], [_item_spec(1, None, None, 20), _item_spec(2, 3)], [_item_spec(0, 3)],
+               [_item_spec(None, 3)], [_item_spec(1, 3), _item_spec(1, None, 0)]]
+    for qi in queues:
+        for loc in (UNSET, 0, 1, 2):
+            pq = {"contentItems": qi}
+            if loc is not UNSET:
+                pq["location"] = loc
+            for u in updates:
+                dup.append((act, S(playbackState=PS.Playing, playbackQueue=pq),
+                            M("U", {"playerPath": _path(1, None, 1), "contentItems": u})))
+    fam["presence-duplicate-items"] = dup
     # F3: CommandInfo fields, as the player's own commands against the client's defaults
     cmds = list(presence_product(real, "CommandInfo", dom, limit=3))
     f3 = []
@@ -1105,10 +1163,12 @@ def run_impl(real, seqs):
         loop.close()
 
 
-def _case(seq, step=None):
+def _case(seq, step=None, real=None):
     c = {"seq": [m.json() for m in seq]}
     if step is not None:
         c["step"] = step
+    if real is not None and (real.tz is not None or real.now_unix != NOW_UNIX):
+        c["clock"] = {"tz": real.tz, "now_unix": real.now_unix}
     return c
 
 
@@ -1128,7 +1188,7 @@ def oracle(ctx, real, seq, steps):
         ref.step(m)
         want = ref.report()
         k = m.kind
-        case = _case(seq, i)
+        case = _case(seq, i, real)
         if isinstance(view, str) or any(isinstance(w, str) for w in wakes):
             bad = view if isinstance(view, str) else next(w for w in wakes if isinstance(w, str))
             ctx.fail(f"exception:{k}:{bad}", case, bad, list(want), "the real code raised while reporting the now-playing state")
@@ -1185,51 +1245,65 @@ def _jsonable(x):
     return x
 
 
-def check_batch(ctx, real, seqs, label):
+def check_batch(ctx, real, seqs, label, clocks=None):
     """Run a batch on the real code, the Lean model and (every 4th sequence; the refinement
-    theorem covers the rest) the Lean spec; diff; oracle.  `label` is one label or one per sequence."""
+    theorem covers the rest) the Lean spec; diff; oracle.  `label` is one label or one per sequence;
+    `clocks` (optional, one per sequence) = {"tz": POSIX TZ string, "now_unix": frozen instant}: the
+    real code runs in that process timezone with datetime.now() frozen at that instant, the model
+    and the reference get the same instant as `now` (they know no timezone)."""
     seqs = list(seqs)
     if not seqs:
         return
     labels = [label] * len(seqs) if isinstance(label, str) else list(label)
-    impl = run_impl(real, seqs)
+    clocks = [None] * len(seqs) if clocks is None else list(clocks)
+    impl, i = [], 0
+    while i < len(seqs):                      # consecutive sequences with the same clock run together
+        j = i
+        while j < len(seqs) and clocks[j] == clocks[i]:
+            j += 1
+        with real.clock(clocks[i]):
+            impl += run_impl(real, seqs[i:j])
+        i = j
     lines, at = [], []
     for i, seq in enumerate(seqs):
         ws = " ".join(wire(m) for m in seq)
         at.append(len(lines))
-        lines.append(f"run 1 {NOW} {ws}")
+        with real.clock(clocks[i]):
+            now = real.now
+        lines.append(f"run 1 {now} {ws}")
         if i % 4 == 0:
-            lines.append(f"spec {NOW} {ws}")
+            lines.append(f"spec {now} {ws}")
     answers = ctx.lean(lines)
     for idx, (seq, steps, label) in enumerate(zip(seqs, impl, labels)):
-        mline = answers[at[idx]]
-        model = mline.split(",")
-        spec = answers[at[idx] + 1].split(",") if idx % 4 == 0 else [None] * len(seq)
-        kinds = "".join(m.kind for m in seq)
-        ctx.note("len:%d" % len(seq))
-        ctx.note("set:" + label)
-        for m in seq:
-            ctx.note("kind:" + m.kind)
-        case = _case(seq)
-        if len(model) != len(seq) or len(spec) != len(seq) or mline == "bad-op":
-            ctx.disagree(case, "n/a", mline, where="driver answer shape")
-            continue
-        for i, ((wakes, view, _stale), mtxt, stxt) in enumerate(zip(steps[1:], model, spec)):
-            mn, mseen, mrep = mtxt.split("|")
-            mview = parse_report(mrep)
-            mwake = [] if mseen == "-" else [parse_report(mseen)]
-            if isinstance(view, str) or mview != view or mwake != wakes:
-                ctx.disagree(dict(case, step=i), [_jsonable(wakes), _jsonable(view)], mtxt,
-                             where="model vs real PlayerStateManager/MrpMetadata (woken?, state seen at the wake-up, state after)")
-                break
-            if stxt is not None and parse_report(stxt) != mview:
-                ctx.disagree(dict(case, step=i), stxt, mtxt, where="Lean spec vs Lean model (refinement sides)")
-                break
-            ctx.note("state:%d" % view[0])
-            ctx.note("notified:%d" % len(wakes))
-        ctx.validated()
-        changes, removed = oracle(ctx, real, seq, steps)
-        ctx.case([label, case["seq"]], changes >= 2 or removed, sample={"kinds": kinds, "seq": case["seq"]} if removed and changes >= 2 else None)
+      with real.clock(clocks[idx]):
+            mline = answers[at[idx]]
+            model = mline.split(",")
+            spec = answers[at[idx] + 1].split(",") if idx % 4 == 0 else [None] * len(seq)
+            kinds = "".join(m.kind for m in seq)
+            ctx.note("len:%d" % len(seq))
+            ctx.note("set:" + label)
+            for m in seq:
+                ctx.note("kind:" + m.kind)
+            case = _case(seq, real=real)
+            if len(model) != len(seq) or len(spec) != len(seq) or mline == "bad-op":
+                ctx.disagree(case, "n/a", mline, where="driver answer shape")
+                continue
+            for i, ((wakes, view, _stale), mtxt, stxt) in enumerate(zip(steps[1:], model, spec)):
+                mn, mseen, mrep = mtxt.split("|")
+                mview = parse_report(mrep)
+                mwake = [] if mseen == "-" else [parse_report(mseen)]
+                if isinstance(view, str) or mview != view or mwake != wakes:
+                    ctx.disagree(dict(case, step=i), [_jsonable(wakes), _jsonable(view)], mtxt,
+                                 where="model vs real PlayerStateManager/MrpMetadata (woken?, state seen at the wake-up, state after)")
+                    break
+                if stxt is not None and parse_report(stxt) != mview:
+                    ctx.disagree(dict(case, step=i), stxt, mtxt, where="Lean spec vs Lean model (refinement sides)")
+                    break
+                ctx.note("state:%d" % view[0])
+                ctx.note("notified:%d" % len(wakes))
+            ctx.validated()
+            changes, removed = oracle(ctx, real, seq, steps)
+            ctx.case([label, case["seq"], case.get("clock")], changes >= 2 or removed, sample={"kinds": kinds, "seq": case["seq"]} if removed and changes >= 2 else None)
 
 
 def clamp_grid(ctx, real):
@@ -1252,6 +1326,46 @@ def clamp_grid(ctx, real):
         if isinstance(got, str) or (got is not None and (got < 0 or (t is not None and t > 0 and got > t))):
             ctx.fail("position-clamp", {"position": p, "total": t}, got, "0 <= position and (total > 0 -> position <= total)",
                      "Playing reports a position outside [0, total_time]")
+
+
+TIMEZONES = ("UTC0", "JST-9", "EST5", "IST-5:30")       # POSIX TZ strings: no DST rules
+CLOCK_OFFSETS = (-20, 0, 7, 90, 5000)                   # seconds between elapsedTimeTimestamp and "now"
+
+
+def position_cases(real):
+    """Everything the derived position depends on: playback state, rate, elapsed time, duration,
+    presence of the timestamp — on the reported player.  The timestamp is the frozen default instant;
+    the clocks of `clock_family` put "now" before, at and after it, in several process timezones."""
+    PS = real.pb.PlaybackState
+    act = mk("C", 1)
+    out = []
+    for ps in (PS.Playing, PS.Paused):
+        for rate in (None, 0, 1, 2):
+            for dur in (None, 0, 100):
+                for el in (None, 10, -5, 95):
+                    it = _item_spec(1, 1, rate, dur, el, NOW)
+                    out.append((act, mk("S", 1, None, 1, ps=ps, queue=(None, [it]))))
+    it = _item_spec(1, 1, 1, 100, 10, None)
+    out.append((act, mk("S", 1, None, 1, ps=PS.Playing, queue=(0, [it])),
+                mk("U", 1, None, 1, items=[_item_spec(1, None, None, None, None, NOW - 3)])))
+    out.append((act, mk("S", 1, None, 1, ps=PS.Playing, queue=(0, [_item_spec(1, 1, 1, 100, 10, 0)]))))
+    return out
+
+
+def clock_family(ctx, real, rng):
+    """(label, sequence, clock): the position cases under every timezone x offset, and sampled
+    histories under random ones."""
+    cases = position_cases(real)
+    for tz in TIMEZONES:
+        for off in CLOCK_OFFSETS:
+            clock = {"tz": tz, "now_unix": NOW_UNIX + off}
+            for seq in cases:
+                yield "clock-" + tz, seq, clock
+    rich = alphabet(real, (1, 2), (1, 2), rich=True)
+    for tz in TIMEZONES[1:]:
+        clock = {"tz": tz, "now_unix": NOW_UNIX + rng.choice(CLOCK_OFFSETS)}
+        for seq in sample_sequences(real, rng.fork(tz), rich, ctx.scale(100, 1500), 3, 8):
+            yield "clock-sampled-" + tz, seq, clock
 
 
 def witnesses():
@@ -1308,6 +1422,10 @@ def run(ctx, only=None):
     check_batch(ctx, real, [q for _l, q in batch], [l for l, _q in batch])
     ctx.exhaustive = True
 
+    # the derived position must not depend on the host's timezone, only on the instant "now"
+    fam = list(clock_family(ctx, real, ctx.rng.fork("clock")))
+    check_batch(ctx, real, [q for _l, q, _c in fam], [l for l, _q, _c in fam], [c for _l, _q, c in fam])
+
     rich = alphabet(real, (0, 1, 2), (0, 1, 2, 3), rich=True, names=(None, 5))
     rng = ctx.rng.fork("sampled")
     n = ctx.scale(3000, 30000)
@@ -1322,17 +1440,19 @@ def replay(ctx, failure):
     case = failure["case"]
     c2 = type(ctx)(ctx.prop, ctx.tier, ctx.seed, ctx.driver.driver_rel)
     if "seq" in case:
-        Real()                       # sets M.default_id / defaults before messages are rebuilt
-        run(c2, only=[_seq_of(case)])
+        real = Real()                # sets M.default_id / defaults before messages are rebuilt
+        with real.clock(case.get("clock")):
+            check_batch(c2, real, [_seq_of(case)], "replay")
     else:
         clamp_grid(c2, Real())
     return bool(c2.failures)
 
 
-def _fails_with(ctx, real, seq, sig):
+def _fails_with(ctx, real, seq, sig, clock=None):
     c2 = type(ctx)(ctx.prop, ctx.tier, ctx.seed, ctx.driver.driver_rel)
-    steps = run_impl(real, [seq])[0]
-    oracle(c2, real, seq, steps)
+    with real.clock(clock):
+        steps = run_impl(real, [seq])[0]
+        oracle(c2, real, seq, steps)
     return next((f for f in c2.failures if f["sig"] == sig), None)
 
 
@@ -1344,13 +1464,14 @@ def shrink(ctx, failure):
     real = Real()
     seq = list(_seq_of(case))
     seq = seq[: case.get("step", len(seq) - 1) + 1]
-    best = _fails_with(ctx, real, tuple(seq), failure["sig"]) or failure
+    clock = case.get("clock")
+    best = _fails_with(ctx, real, tuple(seq), failure["sig"], clock) or failure
     changed = True
     while changed and len(seq) > 1:
         changed = False
         for i in range(len(seq) - 1, -1, -1):
             cand = seq[:i] + seq[i + 1:]
-            f = _fails_with(ctx, real, tuple(cand), failure["sig"]) if cand else None
+            f = _fails_with(ctx, real, tuple(cand), failure["sig"], clock) if cand else None
             if f is not None:
                 seq, best, changed = cand, f, True
                 break
